@@ -158,6 +158,8 @@ def _mk(chars):
     the hole is not involved), else a HoleStr"""
     if all(type(x) is str for x in chars):
         return ''.join(chars)
+    if len(chars) == 1:
+        return chars[0]         # one symbolic character: CrossHair's own 1-character symbolic str (supports `c in "abc"`)
     return HoleStr(chars)
 
 
